@@ -122,7 +122,7 @@ def impl(c):
     if kind == 'subnet':
         q, cnt, limit = a[4:]
         try:
-            l = list(itertools.islice(n.subnet(q, count=cnt), limit + 1))
+            l = list(itertools.islice(common.paired(lambda: n.subnet(q, count=cnt)), limit + 1))
         except Exception as e:
             return '!' + errname(e)
         return plist(_show(x) for x in l[:limit]) + ' ' + tf(len(l) > limit)
@@ -151,7 +151,7 @@ def impl(c):
             return '!' + errname(e) + '~' + _show(n)
     if kind == 'hosts':
         limit = a[4]
-        l = list(itertools.islice(n.iter_hosts(), limit + 1))
+        l = list(itertools.islice(common.paired(lambda: n.iter_hosts()), limit + 1))
         for x in l:
             if x.version != ver:
                 return '!harness:version'
